@@ -321,6 +321,25 @@ def r13f(ctx, run):
     weak = {"{int}": Variant("Ty::IInt", {"0": 0}), "{uint}": Variant("Ty::UInt", {"0": 0}), "{float}": Variant("Ty::Float", {"0": 0})}
     name = hs.param_names()[1]
 
+    from symint import SymInterp
+
+    def ty_method(recv, m):
+        if not (isinstance(recv, Variant) and recv.path.startswith("Ty::")) or m in ("has_semantics_of", "can_fit_into", "max", "clone", "into", "as_ref"):
+            return None
+        c = [f for f in ctx.syn.fns_in("hir/src/common/ty.rs") if f.qual == "Ty::" + m and f.body is not None]
+        return c[0] if len(c) == 1 else None
+
+    def mk_interp(**kw):
+        it = SymInterp(**kw)
+        it.method_resolver = ty_method
+        it.methods.setdefault("absolute_ty", lambda i, r, a: absolute(r))
+        return it
+
+    def absolute(v):
+        while isinstance(v, Variant) and v.last in ("Distinct", "EnumVariant"):
+            v = v.payload["sub_ty"]
+        return v
+
     def run_hs(a, b, depth=0):
         if depth > 4:
             raise CannotEstablish("recursion depth")
@@ -338,12 +357,12 @@ def r13f(ctx, run):
             if x.last == "Float" and x.payload.get("0") == 0 and y.last == "Float":
                 return True
             return False
-        it = Interp(methods={"has_semantics_of": lambda i, r, args: run_hs(r, args[0], depth + 1), "can_fit_into": fits})
+        it = mk_interp(methods={"has_semantics_of": lambda i, r, args: run_hs(r, args[0], depth + 1), "can_fit_into": fits})
         return it.run_fn(hs, {"self": a, name: b})
     def run_max(a, b):
-        it = Interp(methods={"has_semantics_of": lambda i, r, args: run_hs(r, args[0], 1), "can_fit_into": fits0,
-                             "is_zero_sized": lambda i, r, args: False},
-                    macros={"assert_eq": lambda i, e, env: None})
+        it = mk_interp(methods={"has_semantics_of": lambda i, r, args: run_hs(r, args[0], 1), "can_fit_into": fits0,
+                                "is_zero_sized": lambda i, r, args: False},
+                       macros={"assert_eq": lambda i, e, env: None})
         names = mx.param_names()
         return it.run_fn(mx, {"self": a, names[1]: b})
 
